@@ -10,6 +10,27 @@ XSD_NS = "http://www.w3.org/2001/XMLSchema"
 NS_PARAM_TY = "std::option::Option<&model::Namespace>"
 
 
+def _prefix_unbound(CE, cond, branch):
+    """the condition, taken on `branch`, says that the prefix of the type reference (second component of split_type) was looked up
+    in the document (a RustDocument method that receives it) and the lookup did not succeed"""
+    c = CE.expand(cond)     # (CE keeps split_type and the document's lookup methods as calls: they are what is looked for)
+    while isinstance(c, tuple) and c[0] == "not":
+        c, branch = c[1], not branch
+    if branch is not False:
+        return False
+
+    def prefix(n):
+        return isinstance(n, tuple) and ((n[0] == "field" and n[2] == "1" and isinstance(n[1], tuple) and n[1][0] == "call" and str(n[1][1]).endswith("split_type"))
+                                         or any(prefix(x) for x in n if isinstance(x, tuple)))
+    positive = False
+    for call in og.nf_calls(c):
+        if "doc::RustDocument::" in str(call[1]) and any(prefix(a) for a in call[2]):
+            positive = True
+    # only "is bound" spellings: is_some_and(prefix, is_some(lookup)), is_some(lookup), islet Some(..) = lookup
+    text = og.nf_str(c)
+    return positive and "is_none" not in text
+
+
 def run(ck, F):
     ck.explanation = (
         "(R1) the QName split is a pure expression: its provenance normal form is evaluated by the finite-domain evaluator on the "
@@ -269,23 +290,42 @@ def run(ck, F):
             ck.violation("R4", f"{short}:kind-ignored", fb["span"],
                          f"{short} selects by name (and namespace) only: a reference can bind to a component of another kind that carries the same name", fn=short)
     ck.floor("R3", "by-name selection functions", n_sel, 5)
-    # builtin decision
+    # builtin decision: wherever as_rust_type consults the builtin table (the match, the constant table, a helper holding either),
+    # it does so only on the paths on which the prefix of the reference was found not to name a namespace of the document
     b = F.lib.body(C02.AS_RUST_TYPE)
-    if b is None:
-        ck.undecided("R3", "builtin-decision", "-", "as_rust_type not found")
+    tab, holder, tsite = C02.builtin_table(F)
+    if b is None or tab is None:
+        ck.undecided("R3", "builtin-decision", "-", "as_rust_type / the builtin table not found")
     else:
-        nb = Hh.norm_body(b)
-        guard = False
-        for x in Hh.exprs(nb["value"]):
-            if x.get("k") == "If" and C02_diverges(x):
-                d = Hh.describe(x["cond"]) + " " + " ".join(Hh.describe(y) for y in Hh.exprs(x["cond"]))
-                if "namespace" in d and ("find_namespace_by_abbreviation" in d or "namespace_lookup" in d or "find_module_name" in d):
-                    guard = True
-        if guard:
-            ck.ok("R3", "builtin-decision", b["span"], "as_rust_type returns a user type before the builtin table when the prefix denotes a namespace of the document")
-        else:
-            ck.violation("R3", "builtin-decision", b["span"],
-                         "as_rust_type matches the local name against the builtin table without consulting the prefix: `tns:date` binds to xs:date")
+        users = (set(C02.TABLE_LOOKUP.get(holder, [])) | {holder}) - {C02.AS_RUST_TYPE}
+        class _CE(og.CallExpander):
+            def summary(self, path):
+                if str(path).endswith("split_type") or "doc::RustDocument::" in str(path):
+                    return None
+                return super().summary(path)
+        CE = _CE(F)
+        sites = []
+
+        def cb_(e, env, ctx):
+            k = e.get("k")
+            if (k == "Match" and Hh.sp(e) == tsite) or (k == "Path" and e.get("path") == holder) or \
+                    (k in ("Call", "MethodCall") and (Hh.callee_path(e) or "") in users):
+                sites.append((Hh.sp(e), ctx))
+        try:
+            og.EnvWalker(F).walk_fn(C02.AS_RUST_TYPE, cb_)
+        except og.Unrecognised as u:
+            ck.undecided("R3", "builtin-decision", b["span"], f"as_rust_type could not be read: {u.what}")
+            sites = None
+        if sites is not None and not sites:
+            ck.undecided("R3", "builtin-decision", b["span"], "no use of the builtin table found in as_rust_type")
+        elif sites is not None:
+            unguarded = [sp_ for sp_, ctx in sites if not any(c[0] == "alt" and _prefix_unbound(CE, c[1], c[2]) for c in ctx)]
+            if not unguarded:
+                ck.ok("R3", "builtin-decision", b["span"], f"as_rust_type consults the builtin table ({len(sites)} site(s)) only where the prefix was looked up "
+                      "in the document's namespaces and not found: a prefix bound to a document namespace denotes a user type")
+            else:
+                ck.violation("R3", "builtin-decision", unguarded[0],
+                             "as_rust_type matches the local name against the builtin table without consulting the prefix: `tns:date` binds to xs:date")
     # ---- R6
     b = F.lib.body("model::doc::RustDocument::extend")
     if b is None:
